@@ -17,7 +17,7 @@ RULE = ("eps-NFA/NFA/DFA cases as in C01 (<=5 states, emphasis on eps cycles, de
 ASSUMPTIONS = ["termination is restated as bounded progress: a logical step budget on get_accepted_words"]
 TIERS = {
     "quick": {"workers": 4, "random": 2500},
-    "thorough": {"workers": 16, "random": 25000, "pytest": True, "exhaustive": True, "hard_timeout": 3000},
+    "thorough": {"workers": 16, "random": 60000, "pytest": True, "exhaustive": True, "hard_timeout": 3000},
 }
 MIN = {"quick": {"C04.EpsilonNFA.is_empty": 500, "C04.EpsilonNFA.is_deterministic": 200,
                  "C04.FiniteAutomaton.is_acyclic": 500, "C04.words": 2000},
